@@ -41,7 +41,7 @@ K_CCDREL = 1e-6
 # box-box: documented in the collider (engine_collision_box.c header comment): a face axis may replace an edge axis
 # when within 5 % -> reported depth in [D, D/0.95]; edge bias 1e-6 relative.
 BOXBOX_FUDGE = 1.0 / 0.95 + 1e-5
-TOUCH_BAND = 10.0    # |true distance| <= TOUCH_BAND*ccd_tolerance: mj_geomDistance not asserted (finding F1)
+TOUCH_BAND = 30.0    # |true distance| <= TOUCH_BAND*ccd_tolerance: mj_geomDistance not asserted (finding F1)
 NON_CCD = {('plane', 'sphere'), ('plane', 'capsule'), ('plane', 'cylinder'), ('plane', 'box'), ('plane', 'ellipsoid'),
            ('sphere', 'sphere'), ('sphere', 'capsule'), ('sphere', 'cylinder'), ('sphere', 'box'),
            ('capsule', 'capsule'), ('capsule', 'box'), ('box', 'box')}     # pairs with a closed-form collider
@@ -111,6 +111,32 @@ def main(ck):
                parallel_capsules_f5_wrong=0, parallel_capsules_f5_missing=0)
   nposes = 8
 
+  worker = gg.EngineWorker()
+  REPRO = gg.EPA_CRASH_REPRO
+
+  def reaches_epa(pair):
+    return pair not in NON_CCD or pair == ('box', 'box')      # mj_geomDistance sends box-box to GJK/EPA
+
+  def worker_eval(req, pair, what):
+    convex = pair not in NON_CCD and 'sphere' not in pair and 'plane' not in pair
+    return gg.guarded_eval(ck, lib, worker, req, pair, convex, stats, what)
+
+  def engine(xml, m, d, S, M, G, PA, RA, PB, RB, _):
+    cdist = float(np.linalg.norm(S[0].pos - S[1].pos))
+    sc = S[0].scale() * (S[0].typ != 'plane') + S[1].scale() + cdist + float(np.linalg.norm(S[1].pos))
+    distmax = max(M + G, 0.0) + 4 * sc
+    pair = tuple(sorted((S[0].typ, S[1].typ), key=ORDER.get))
+    qpos = list(PB) + list(gg.mat2quat(RB))
+    if reaches_epa(pair):
+      res = worker_eval(dict(xml=xml, mocap_pos=list(map(float, PA)), mocap_quat=list(map(float, gg.mat2quat(RA))),
+                             qpos=list(map(float, qpos)), distmax=float(distmax)), pair, 'pose')
+      if res is None:
+        return None
+    else:
+      res = gg.eval_pose(lib, m, d, PA, gg.mat2quat(RA), qpos, distmax)
+    res['distmax'] = distmax
+    return res
+
   def test(case):
     rng = np.random.RandomState(case['seed'])
     ta, tb = case['ta'], case['tb']
@@ -166,18 +192,18 @@ def main(ck):
       if rng.rand() < 0.3:
         PB = PB + gg.perp_unit(rng, dvec) * smin * rng.uniform(0, 0.5)
         shifted = True
-      ck.journal(dict(stage='mj_forward', xml=xml, PA=PA, qA=gg.mat2quat(RA), PB=PB, qB=gg.mat2quat(RB)))
-      gg.set_pose(lib, m, d, PA, RA, PB, RB)
+      S = [gr.Shape(ta, sa, PA, RA), gr.Shape(tb, sb, PB, RB)]
+      res = engine(xml, m, d, S, M, G, PA, RA, PB, RB, None)
+      if res is None:
+        continue               # the collider killed the worker: reported inside engine()
       # the engine's kinematics must have put the geoms where the scene says (sanity of the harness)
-      if np.max(np.abs(d.geom_xpos[0] - PA)) > 1e-9 * (1 + np.linalg.norm(PA)) or \
-         np.max(np.abs(np.array(d.geom_xmat[1]).reshape(3, 3) - RB)) > 1e-9:
+      if np.max(np.abs(res['xpos'][0] - PA)) > 1e-9 * (1 + np.linalg.norm(PA)) or np.max(np.abs(res['xmat'][1] - RB)) > 1e-9:
         raise AssertionError('scene placement mismatch')
-      S = [gr.shape_from_model(m, d, 0), gr.shape_from_model(m, d, 1)]
+      S = [gr.Shape(ta, sa, res['xpos'][0], res['xmat'][0]), gr.Shape(tb, sb, res['xpos'][1], res['xmat'][1])]
       info = dict(ta=ta, tb=tb, sa=sa, sb=sb, PA=PA, qA=gg.mat2quat(RA), PB=PB, qB=gg.mat2quat(RB), margin=M, gap=G,
                   okind=okind, dkind=dkind, dclass=dclass, delta=delta, shifted=shifted, tol=tol_ccd, xml=xml)
       soft = []
-      ck.journal({k: v for k, v in info.items()})      # a crash of the collider is attributed to this pose
-      check_pose(ck, lib, m, d, S, M, G, tol_ccd, info, calib, stats, soft, True)
+      check_pose(ck, res, S, M, G, tol_ccd, info, calib, stats, soft, True)
       if soft:
         # FINDING F2 (see report): GJK occasionally stagnates with an error far above ccd_tolerance, and whether it
         # does depends on the last bits of the coordinates. The same configuration is re-evaluated after rigid
@@ -188,10 +214,13 @@ def main(ck):
           # 3 rigid translations of the scene, then 3 rotations of geom B by 1e-10 rad about its own centre
           o = scale * rng.uniform(-2, 2, 3) if attempt < 3 else np.zeros(3)
           RBp = RB if attempt < 3 else gg.axis_angle(gg.rand_unit(rng), 1e-10) @ RB
-          gg.set_pose(lib, m, d, PA + o, RA, PB + o, RBp)
-          S2 = [gr.shape_from_model(m, d, 0), gr.shape_from_model(m, d, 1)]
+          S2 = [gr.Shape(ta, sa, PA + o, RA), gr.Shape(tb, sb, PB + o, RBp)]
+          res2 = engine(xml, m, d, S2, M, G, PA + o, RA, PB + o, RBp, None)
+          if res2 is None:
+            continue
+          S2 = [gr.Shape(ta, sa, res2['xpos'][0], res2['xmat'][0]), gr.Shape(tb, sb, res2['xpos'][1], res2['xmat'][1])]
           soft2 = []
-          check_pose(ck, lib, m, d, S2, M, G, tol_ccd, info, calib, stats, soft2, False)
+          check_pose(ck, res2, S2, M, G, tol_ccd, info, calib, stats, soft2, False)
           if not soft2:
             ok = True
             break
@@ -226,9 +255,9 @@ def main(ck):
     ck.violation('%s -- %s' % (WHAT[fp], msg), {k: v for k, v in info.items()}, bucket='known:' + fp,
                  fingerprint='C13:' + fp)
 
-  def check_pose(ck, lib, m, d, S, M, G, tol_ccd, info, calib, stats, soft, record):
-    ncon = int(d.ncon)
-    con = d.contact[:ncon].copy() if ncon else None
+  def check_pose(ck, res, S, M, G, tol_ccd, info, calib, stats, soft, record):
+    ncon = int(res['ncon'])
+    con = res['con'] if ncon else None
     cdist = float(np.linalg.norm(S[0].pos - S[1].pos))
     sc = S[0].scale() * (S[0].typ != 'plane') + S[1].scale() + cdist + float(np.linalg.norm(S[1].pos))
     cond = pose_condition(S[0], S[1])
@@ -433,7 +462,9 @@ def main(ck):
         nk = np.array(ck_['frame'][:3])
         pk = np.array(ck_['pos'])
         dk = float(ck_['dist'])
-        if dk < -DEEP * smin or (touching and is_ccd) or (pair == ('box', 'box') and sat > 0) or f5:
+        if dk < -DEEP * smin or (touching and is_ccd) or (pair == ('box', 'box') and sat > 0) or f5 or (is_ccd and ncon > 1):
+          # (convex multi-contact manifolds: points come from perturbed poses / face clipping, only the single-contact
+          #  result of GJK/EPA is asserted)
           continue
         e1 = gr.sdf(S[int(ck_['geom'][0])], pk - nk * dk / 2)
         e2 = gr.sdf(S[int(ck_['geom'][1])], pk + nk * dk / 2)
@@ -457,10 +488,8 @@ def main(ck):
               k, ncon, e1, e2, tolk), 'between:%s-%s' % pair)
 
     # ---- mj_geomDistance: symmetric, agrees with the contact and the closed form
-    distmax = max(M + G, 0.0) + 4 * sc
-    f12, f21 = np.zeros(6), np.zeros(6)
-    d12 = lib.mj_geomDistance(m, d, 0, 1, distmax, f12)
-    d21 = lib.mj_geomDistance(m, d, 1, 0, distmax, f21)
+    distmax = res['distmax']
+    d12, f12, d21, f21 = res['d12'], res['f12'], res['d21'], res['f21']
     gd_ccd = is_ccd or pair == ('box', 'box')       # mj_geomDistance sends box-box to GJK/EPA as well
     tgd = tprim + ((K_CCD * tol_ccd + K_CCDREL * sc) if gd_ccd else 0.0)
     deep_gd = d12 < -DEEP * smin
@@ -518,7 +547,8 @@ def main(ck):
         e1, e2 = gr.sdf(sa_, ft[:3]), gr.sdf(sb_, ft[3:])
         if not gd_ccd:
           e1, e2 = abs(e1), abs(e2)
-        if max(e1, e2) > tgd * 4:
+        if max(e1, e2) > tgd * 4 + (1e-4 * sc if gd_ccd else 0.0):   # GJK witnesses: barycentric combinations in world
+          # coordinates of a possibly unconverged simplex, worst observed 4e-5*sc (see C15 K_MEMBER)
           gd_fail('mj_geomDistance fromto points outside the geoms by %.3g/%.3g' % (e1, e2), 'gd-fromto')
         if dd > 1e-3 * smin:
           # separated (direction of the witness segment well conditioned): slab certificate along it
@@ -556,7 +586,11 @@ def main(ck):
                         dclass=info['dclass'], okind=info['okind'], dkind=info['dkind'], sizes=[info['sa'], info['sb']]),
             labels=labels)
 
+  # deterministic probe of the known EPA crash (exact reproducer, in the worker)
+  r0 = worker_eval(dict(REPRO), ('cylinder', 'box'), 'reproducer of C13:epa-buffer-overrun-iteration-limit')
+  ck.label('epa-crash-reproducer:%s' % ('died' if r0 is None else 'survived'))
   ck.run_hypothesis(test, scene_strategy(), ck.budget(350, 12000), name='contacts', shrink=False)
+  worker.stop()
   ck.extra['tolerances'] = dict(K_FRAME=K_FRAME, K_PRIM=K_PRIM, K_CCD=K_CCD, BOXBOX_FUDGE=BOXBOX_FUDGE, DEEP=DEEP)
   ck.extra['worst_observed'] = {k: float(v) for k, v in calib.items()}
   ck.extra['boxbox'] = stats
